@@ -197,7 +197,8 @@ class MetaSim(SimEngine):
     nruns = {"quick": 5000, "thorough": 400000}
     budgets = {"quick": 60.0, "thorough": 540.0}
     rule = (
-        "script = finite problem (Booleans and ints in small ranges, <= 300 reachable states) either with 1-2 interpreted "
+        "script = finite problem (Booleans and ints in small ranges, optionally a parametrised fluent over two objects and a step gated "
+        "by forall/exists over an interpreted function; <= 300 reachable states) either with 1-2 interpreted "
         "functions in preconditions and effect values (solved through interpreted_functions_planning[simstub]) or with an "
         "oversubscription metric of 2-4 soft goals with positive / equal / negative gains and optional hard goals (solved "
         "through oversubscription[simstub]); timeout in {None, generous, tight}; per peer call a scripted behaviour (ok, "
@@ -334,6 +335,26 @@ class MetaSim(SimEngine):
                 actions.insert(1, {"name": "jump", "params": [], "pre": [gate2],
                                    "effects": [{"kind": "assign", "fluent": ["f", "x0"], "value": ["int", ra.randint(2, 4)],
                                                 "cond": None, "forall": []}]})
+        if kind == "if" and ifuns and ra.random() < 0.35:
+            # an interpreted function under a QUANTIFIER: a parametrised fluent lev(l) over two objects, a step
+            # towards the goal gated by `forall/exists l. g(lev(l)) ...`, and actions that change lev
+            g = ra.choice(ifuns)
+            world["types"] = [["L", None]]
+            world["objects"] = [["l0", "L"], ["l1", "L"]]
+            fluents.append({"name": "lev", "type": ["int", 0, 2], "params": [["l", ["user", "L"]]], "default": None})
+            for o in ("l0", "l1"):
+                init.append([["f", "lev", ["o", o]], ["int", ra.randint(0, 1)]])
+            call = ["if", g["name"], ["f", "lev", ["v", "l", ["user", "L"]]]]
+            body = call if g["ret"][0] == "bool" else [ra.choice(["ge", "le", "eq"]), call, ["int", ra.randint(0, 3)]]
+            if ra.random() < 0.3:
+                body = ["not", body]
+            q = [ra.choice(["forall", "forall", "exists"]), [["l", ["user", "L"]]], body]
+            actions.insert(0, {"name": "qstep", "params": [], "pre": [q],
+                               "effects": [{"kind": "inc", "fluent": ["f", "x0"], "value": ["int", 1], "cond": None, "forall": []}]})
+            for o in ("l0", "l1"):
+                actions.append({"name": "up_" + o, "params": [], "pre": [],
+                                "effects": [{"kind": ra.choice(["inc", "inc", "dec"]), "fluent": ["f", "lev", ["o", o]],
+                                             "value": ["int", 1], "cond": None, "forall": []}]})
         world["actions"] = actions
 
         def goal():
@@ -403,6 +424,16 @@ class MetaSim(SimEngine):
             import unified_planning.environment as envmod
             W = World(world, env=envmod.GLOBAL_ENVIRONMENT, strict=True)
             problem = W.problem()
+            # the generator initialises every fluent and gives an oversubscription problem at least one soft goal;
+            # a script without (a minimised one) is not a problem of the quantified family
+            rs0 = RefSem(world)
+            st0 = rs0.initial_state()
+            if any(tuple(gf) not in st0 for gf in rs0.ground_fluents()):
+                ctx.probe("discarded-uninitialised-fluent")
+                return False
+            if kind == "os" and not script.get("soft"):
+                ctx.probe("discarded-no-soft-goal")
+                return False
             soft = []
             if kind == "os":
                 soft = [(W.expr(g), w) for g, w in script["soft"]]
